@@ -457,6 +457,7 @@ type c31Send struct {
 	Probe    bool // issued right after an observed OnDeactivate exit
 	DeadAt   bool // every activation of the identity known at call start had completed OnDeactivate
 	ActsAt   int  // number of activations of the identity known at call start
+	Stopping bool // sys.isStopping() read true immediately before the call was issued
 }
 
 type c31Obs struct {
@@ -470,6 +471,7 @@ type c31Obs struct {
 	SendsOK      int
 	SendsErr     int
 	Probes       int
+	AfterStopping int // sends issued after isStopping() was observed true
 	FreshHandled int // nil-error sends started after an OnDeactivate exit and handled by a later activation
 	RacedLoss    int // nil-error sends not handled whose call interval overlapped a deactivation (tolerated)
 	ReplyMismatch int
@@ -568,6 +570,10 @@ func c31RunCase(t *testing.T, caseNo int, k c31Knobs, seed int64) c31Obs {
 		tr.mu.Unlock()
 		rec.DeadAt, rec.ActsAt = dead, n
 		rec.Start = m.seq.Add(1)
+		// the system never restarts in a case and shutdown clears "started" before
+		// it clears "stopping": once this reads true the entry gate of
+		// TellGrain/AskGrain must reject the call
+		rec.Stopping = sys.isStopping()
 		var err error
 		func() {
 			defer func() {
@@ -652,7 +658,7 @@ func c31RunCase(t *testing.T, caseNo int, k c31Knobs, seed int64) c31Obs {
 		go func() {
 			defer swg.Done()
 			for i := 0; i < k.PerSender; i++ {
-				if m.stopSeq.Load() != 0 && sys.isStopping() && i > 3 && srng.Intn(4) != 0 {
+				if m.stopSeq.Load() != 0 && sys.isStopping() && i > 3 && srng.Intn(2) != 0 {
 					// after shutdown started every call fails fast; a few are kept
 					continue
 				}
@@ -756,6 +762,18 @@ func c31RunCase(t *testing.T, caseNo int, k c31Knobs, seed int64) c31Obs {
 		return true
 	})
 	for _, rec := range sends {
+		if rec.Stopping {
+			obs.AfterStopping++
+			_, reached := m.handled.Load(rec.ID)
+			if rec.Err == "" || reached {
+				api := "tell"
+				if rec.Ask {
+					api = "ask"
+				}
+				m.viol("send-accepted-after-stopping-observed:"+api, map[string]any{"send": rec, "reached_a_grain_instance": reached, "stop_called_at": stopSeq,
+					"note": "isStopping() was true before the call was issued, yet the call returned nil or its message reached OnReceive"})
+			}
+		}
 		if v, ok := m.handled.Load(rec.ID); ok && rec.Err != "" {
 			c31AuditLateSend(m, rec, v.(*c31Handled))
 		}
